@@ -63,6 +63,10 @@ class CacheStore(object):
             return
 
         current_hash = _get_versionhash()
+        # Entries are named after the scanner version as well (see
+        # _get_filename): a scanner that was already running when another
+        # version purged the cache still finishes its stores afterwards.
+        self._version = current_hash
         version = os.path.join(self._directory, _CACHE_VERSION_FILENAME)
         try:
             with open(version, 'r', encoding='utf-8') as version_file:
@@ -103,7 +107,7 @@ class CacheStore(object):
         # Key the entry on the absolute path: scanners started in different
         # directories can spell different files the same way (an include
         # path of '.' or '../gir'), and must not share an entry then.
-        filename = os.path.abspath(filename)
+        filename = self._version + os.path.abspath(filename)
         # Assume UTF-8 encoding for the filenames. This doesn't matter so much
         # as long as the results of this method always produce the same hash.
         hexdigest = hashlib.sha1(filename.encode('utf-8')).hexdigest()
